@@ -93,7 +93,13 @@ class ThermoOracle:
             isos = isos + numpy.abs(case["ptot"]) + numpy.abs(case["pst"][_nax, :])
         S, Ss = self._part("dpdt", case, e_i, e_j, False)
         gat = dict(T=case["t"][:, _nax].astype(float), V=case["v"][_nax, :], S=S, ei=e_i[_nax, :], ej=e_j[_nax, :], Cv=case["cv"])
-        gap = evaluate(self.polys["gap_of_S"], gat)
+        with numpy.errstate(all="ignore"):
+            gap = evaluate(self.polys["gap_of_S"], gat)
         gat["S"] = Ss
-        gaps = evaluate(self.polys["gap_of_S"], gat)
+        with numpy.errstate(all="ignore"):
+            gaps = evaluate(self.polys["gap_of_S"], gat)
+        z = case["t"] == 0                       # T_GapVanish: every term of the gap carries a Bose factor
+        gap = numpy.array(gap, dtype=float); gaps = numpy.array(gaps, dtype=float)
+        gap[z, :] = 0.0
+        gaps[z, :] = 0.0
         return {"zp": (zp, zps), "th": (th, ths), "iso": (iso, isos), "gap": (gap, gaps), "adi": (iso + gap, isos + gaps)}
